@@ -45,3 +45,33 @@ Print Assumptions C06_teq_wr_projection.
 Theorem C06_teq_perm : forall (op : Type) (dep : op -> op -> bool) l l', teq dep l l' -> Permutation l l'.
 Proof. exact teq_perm. Qed.
 Print Assumptions C06_teq_perm.
+
+(* ---- gauge compiling: every constant gauge of the regenerated table is an identity up to a unit scalar ---- *)
+From Coq Require Import Bool PrimFloat.
+From VF Require Import Base.K8 Base.FloatInst Generated.GaugeTables Xform.Gauges Xform.GaugesProofs.
+
+(* (post0 (x) post1) . G' . (pre0 (x) pre1) = c . G with |c| = 1, decided exactly in Q(zeta_8), for every entry
+   regenerated from cz / sqrt_cz / cphase / spin-inversion / iswap / sqrt_iswap gauges *)
+Theorem C06_gauge_table_ok : forallb gauge_ok_exact (gauge_exact K8Ops) = true.
+Proof. exact gauge_table_ok. Qed.
+Print Assumptions C06_gauge_table_ok.
+
+Theorem C06_gauge_ok_exact_sound : forall e : gauge_entry (K:=K8),
+  gauge_ok_exact e = true -> proportional_unit_spec 4 (gauge_lhs K8Ops e) (g_target e).
+Proof. exact gauge_ok_exact_sound. Qed.
+Print Assumptions C06_gauge_ok_exact_sound.
+
+Theorem C06_gauge_table_spec : forall e, In e (gauge_exact K8Ops) ->
+  proportional_unit_spec 4 (gauge_lhs K8Ops e) (g_target e).
+Proof. exact gauge_table_spec. Qed.
+Print Assumptions C06_gauge_table_spec.
+
+(* entries outside the field (sycamore, generic angles): float instance, equality up to global phase within 2^-30 *)
+Theorem C06_gauge_table_float_ok : forallb (gauge_ok_float 0x1p-30%float) gauge_float = true.
+Proof. exact gauge_table_float_ok. Qed.
+Print Assumptions C06_gauge_table_float_ok.
+
+(* every dynamical-decoupling base sequence multiplies to a non-zero scalar *)
+Theorem C06_dd_sequences_ok : forallb dd_ok (dd_sequences K8Ops) = true.
+Proof. exact dd_sequences_ok. Qed.
+Print Assumptions C06_dd_sequences_ok.
